@@ -1543,25 +1543,25 @@ Fixpoint dv_plain (d : dv) : bool :=
 
 Require CE.Model.Rules.
 
-(* A generated document of the fragment: its events, the same document as a tree, the observed
+(* A generated document of the fragment: its events, the same document as record types and tree, the observed
    library conversions, and whether the validator of the implementation accepted the events.
    Checked: the tree flattens to the events (comments and padding aside), it lies in [supported6],
    it has data whose erasure the iterator can emit ([dv_plain]), and the model of the validator agrees with the implementation about it
    (the generator keeps to what the validator accepts; [supported6] itself is more liberal,
    e.g. it admits a marker inside a marked container). *)
 Inductive frag_case :=
-| FragCase (es : list event) (t : dt)
+| FragCase (es : list event) (rts : list rtdecl) (t : dt)
            (urls : list (bytes * option bytes)) (times : list (bytes * option (bytes * bytes)))
            (impl_accepts : bool).
 
 Definition frag_case_ok (c : frag_case) : bool :=
   match c with
-  | FragCase es t urls times acc =>
-      list_eqb event_eqb (strip es) (doc_events [] t)
-      && supported6 (url_of_table urls) (time_of_table times) [] t
-      && match sem t with
-         | Some d => match erase_doc [] d with Some d' => dv_plain d' | None => false end
-         | None => false
+  | FragCase es rts t urls times acc =>
+      list_eqb event_eqb (strip es) (doc_events rts t)
+      && supported6 (url_of_table urls) (time_of_table times) rts t
+      && match sem t, rts_data rts with
+         | Some d, Some rd => match erase_doc rd d with Some d' => dv_plain d' | None => false end
+         | _, _ => false
          end
       && Bool.eqb (Rules.accepts_document Rules.default_rcfg es) acc
   end.
